@@ -64,6 +64,26 @@ theorem C14_ws_edits_preserve (edits : List (Nat × Nat × List Tok)) :
       have := h (e :: pre) e' post (by rw [heq]; rfl)
       simpa [List.foldl_cons] using this
 
+/-- tokens of whitespace or newline class contribute neither code nor comments: inserting them (a `create_before` /
+    `create_after` of constructed segments) or replacing whitespace by them is a whitespace-only edit -/
+theorem C14_inserted_ws_neutral (news : List Tok) (h : ∀ t ∈ news, t.cls ≤ 1) :
+    codeProj news = [] ∧ comments news = [] := by
+  constructor
+  · unfold codeProj
+    have : news.filter isCode = [] := by
+      apply List.filter_eq_nil_iff.mpr
+      intro t ht
+      have := h t ht
+      simp [isCode]; omega
+    simp [this]
+  · unfold comments
+    have : news.filter isComment = [] := by
+      apply List.filter_eq_nil_iff.mpr
+      intro t ht
+      have := h t ht
+      simp [isComment]; omega
+    simp [this]
+
 /-! Non-vacuity: collapse a double space and move a newline; a gluing edit is rejected by the spec. -/
 def exBefore : List Tok := [⟨3, [97]⟩, ⟨0, [32, 32]⟩, ⟨3, [98]⟩, ⟨2, [45, 45]⟩, ⟨1, [10]⟩]
 example : specC14 exBefore (applyEdit exBefore 1 2 [⟨0, [32]⟩]) = true := by decide
